@@ -4,9 +4,12 @@ r=json.load(open(sys.argv[1]))
 print('WHY:',r.get('why')); s=r['in']; out=r['impl']
 def brief(p):
     d={'name':p['name'],'labels':p.get('labels')}
+    if p.get('namespace'): d['namespace']=p['namespace']
     for k in ('nodeSelector','required','tolerations','affinity','spreads'):
         if p.get(k): d[k]=p[k]
     return d
+# (anti-)affinity terms print with their namespaces / namespaceSelector ({} = all namespaces) / matchLabelKeys / matchExprs
+if s.get('namespaces'): print('NAMESPACES',json.dumps(s['namespaces']))
 print('PENDING'); 
 for p in s['pods']: print('  ',json.dumps(brief(p)))
 print('NODES')
